@@ -185,7 +185,10 @@ def setSlot : List Nat → Nat → Nat → List Nat
   | _ :: xs, 0, v => v :: xs
   | x :: xs, i+1, v => x :: setSlot xs i v
 
-def getSlot (xs : List Nat) (i : Nat) : Nat := xs.getD i 0
+def getSlot : List Nat → Nat → Nat
+  | [], _ => 0
+  | x :: _, 0 => x
+  | _ :: xs, i + 1 => getSlot xs i
 
 def updSeg (segs : List SegImg) (key j need : Nat) (edges : List Nat) : List SegImg :=
   if segs.any (fun s => s.key == key) then
